@@ -18,6 +18,7 @@ package ca
 
 import (
 	"context"
+	"strings"
 
 	pb "istio.io/api/security/v1alpha1"
 	"istio.io/istio/pkg/security"
@@ -42,6 +43,35 @@ func signsOnlyTheAuthenticatedIdentity(opts ca.CertOpts, caller *security.Caller
 	return !opts.ForCA && caller != nil &&
 		(impersonatedIdentity != "" || sameStrings(opts.SubjectIDs, caller.Identities)) &&
 		(impersonatedIdentity == "" || (len(opts.SubjectIDs) == 1 && opts.SubjectIDs[0] == impersonatedIdentity))
+}
+
+// The signer joins the identities with ',' and the SAN builder splits on ',': an identity containing the
+// separator would become several subject alternative names. So every identity handed over is one identity.
+func noSeparator(ids []string) bool {
+	return verif.Forall(func(i int) bool { return !(0 <= i && i < len(ids)) || !strings.Contains(ids[i], ",") })
+}
+
+//verif:call-assert (*Server).CreateCertificate Sign 0
+func caSignedIdentitiesHaveNoSeparator(arg1 ca.CertOpts) bool {
+	return noSeparator(arg1.SubjectIDs)
+}
+
+//verif:call-assert (*Server).CreateCertificate SignWithCertChain 0
+func caChainSignedIdentitiesHaveNoSeparator(arg1 ca.CertOpts) bool {
+	return noSeparator(arg1.SubjectIDs)
+}
+
+// Reading the peer address from the request context has no effect.
+//
+//verif:pure istio.io/istio/pkg/security.GetConnectionAddress
+
+// Assumed about the authenticators (not verified here): an authenticated caller is returned with identities
+// that are single identities (SPIFFE URIs built from Kubernetes names), or no caller is returned.
+//
+//verif:trusted-contract istio.io/istio/pkg/security.Authenticate
+func ctAuthenticateIdentities(ctx context.Context, auths []security.Authenticator) {
+	caller, _ := security.Authenticate(ctx, auths)
+	verif.Ensures("identities-are-single-identities", caller == nil || noSeparator(caller.Identities))
 }
 
 //verif:call-assert (*Server).CreateCertificate Sign 0
@@ -94,6 +124,30 @@ func ctCreateCertificate(s *Server, ctx context.Context, request *pb.IstioCertif
 func ctAuthenticateImpersonationFrame(m *MulticlusterNodeAuthorizor, ctx context.Context, k security.KubernetesInfo, id string) {
 	err := m.authenticateImpersonation(ctx, k, id)
 	verif.Ensures("nil-means-accepted", err != nil || impersonationAccepted(m, k, id))
+	// proved for the real functions by lemmaAcceptedImpersonationIsASingleIdentity below
+	verif.Ensures("accepted-identity-is-a-single-identity", err != nil || !strings.Contains(id, ","))
+}
+
+// The per-cluster authorizer accepts only a single identity (no separator in the requested string).
+//
+//verif:contract (*ClusterNodeAuthorizer).authenticateImpersonation
+//verif:prop C09
+//verif:nosafety
+func ctClusterAuthenticateImpersonation(na *ClusterNodeAuthorizer, caller security.KubernetesInfo, requestedIdentityString string) {
+	err := na.authenticateImpersonation(caller, requestedIdentityString)
+	verif.Ensures("accepted-identity-is-a-single-identity", err != nil || !strings.Contains(requestedIdentityString, ","))
+}
+
+// ... and so does the multi-cluster front (its contract above is otherwise assumed).
+//
+//verif:lemma
+//verif:prop C09
+//verif:nosafety
+//verif:inline-target (*MulticlusterNodeAuthorizor).authenticateImpersonation
+func lemmaAcceptedImpersonationIsASingleIdentity(m *MulticlusterNodeAuthorizor, ctx context.Context, k security.KubernetesInfo, id string) {
+	verif.Requires("authorizer-present", m != nil && m.component != nil)
+	err := m.authenticateImpersonation(ctx, k, id)
+	verif.Assert("accepted-identity-is-a-single-identity", err != nil || !strings.Contains(id, ","))
 }
 
 //verif:iface-contract istio.io/istio/security/pkg/server/ca.CertificateAuthority.GetCAKeyCertBundle
